@@ -18,27 +18,34 @@
 (*             C_RC, C_KL, C_KU (re-check of the two counters + CAS),      *)
 (*             C_WR (self wake-up)                                         *)
 (* The eventfd is registered edge-triggered and never read: every write    *)
-(* raises a readiness edge that one epoll_wait consumes.                   *)
+(* raises a readiness edge that one epoll_wait consumes.  Its counter can  *)
+(* be saturated (SatInit: the state after 2^64-2 unread writes): the write *)
+(* then fails with EAGAIN, the writer reads the counter away and tries     *)
+(* again (one more pass through the same gate).                            *)
+(* A task whose script entry ends in "S" returns ErrEngineShutdown: the    *)
+(* loop returns from Polling at once (cpc = "END"), whatever is queued.    *)
 (***************************************************************************)
 EXTENDS Integers, Sequences, FiniteSets, TLC
 
 CONSTANTS Script,    \* producer -> sequence of priorities ("H" / "L")
           Thresh,    \* highPriorityEventsThreshold (1024 in the code)
-          MaxLow     \* MaxAsyncTasksAtOneTime (256 in the code)
+          MaxLow,    \* MaxAsyncTasksAtOneTime (256 in the code)
+          SatInit    \* TRUE: the eventfd's counter starts saturated
 
 Prods == DOMAIN Script
-VARIABLES uq, lq, ulen, llen, wakeup, edge,
+VARIABLES uq, lq, ulen, llen, wakeup, edge, sat,
           ppc, pk, ptgt,            \* producer: pc, index of the current task, target queue of the current task
           cpc, msec, cnt, cur,      \* loop: pc, epoll_wait timeout, low-priority tasks run in this round, task being run
           execs                     \* ghost: sequence of executed tasks <<p, i>>
-vars == <<uq, lq, ulen, llen, wakeup, edge, ppc, pk, ptgt, cpc, msec, cnt, cur, execs>>
+vars == <<uq, lq, ulen, llen, wakeup, edge, sat, ppc, pk, ptgt, cpc, msec, cnt, cur, execs>>
 
-Init == /\ uq = <<>> /\ lq = <<>> /\ ulen = 0 /\ llen = 0 /\ wakeup = 0 /\ edge = FALSE
+Init == /\ uq = <<>> /\ lq = <<>> /\ ulen = 0 /\ llen = 0 /\ wakeup = 0 /\ edge = FALSE /\ sat = SatInit
         /\ ppc = [p \in Prods |-> "ST"] /\ pk = [p \in Prods |-> 1] /\ ptgt = [p \in Prods |-> "u"]
         /\ cpc = "W" /\ msec = -1 /\ cnt = 0 /\ cur = <<0, 0>> /\ execs = <<>>
 
 Task(p) == <<p, pk[p]>>
-Prio(p) == Script[p][pk[p]]
+Prio(p) == SubSeq(Script[p][pk[p]], 1, 1)
+Stops(tk) == Len(Script[tk[1]][tk[2]]) = 2       \* "HS" / "LS": the task returns ErrEngineShutdown
 HasMore(p) == pk[p] <= Len(Script[p])
 Link(p, tgt) == /\ ptgt' = [ptgt EXCEPT ![p] = tgt]
                 /\ IF tgt = "u" THEN uq' = Append(uq, Task(p)) /\ UNCHANGED lq
@@ -51,27 +58,31 @@ P_Start(p) == /\ ppc[p] = "ST" /\ HasMore(p)
               /\ IF Prio(p) = "H"
                  THEN Link(p, "u") /\ ppc' = [ppc EXCEPT ![p] = "INC"]
                  ELSE ppc' = [ppc EXCEPT ![p] = "LK"] /\ UNCHANGED <<uq, lq, ptgt>>
-              /\ UNCHANGED <<ulen, llen, wakeup, edge, pk>> /\ PUnch
+              /\ UNCHANGED <<ulen, llen, wakeup, edge, sat, pk>> /\ PUnch
 \* low priority: read the urgent queue's counter, divert to the low-priority queue at the threshold, link
 P_Len(p) == /\ ppc[p] = "LK"
             /\ Link(p, IF ulen >= Thresh THEN "l" ELSE "u")
             /\ ppc' = [ppc EXCEPT ![p] = "INC"]
-            /\ UNCHANGED <<ulen, llen, wakeup, edge, pk>> /\ PUnch
+            /\ UNCHANGED <<ulen, llen, wakeup, edge, sat, pk>> /\ PUnch
 P_Inc(p) == /\ ppc[p] = "INC"
             /\ IF ptgt[p] = "u" THEN ulen' = ulen + 1 /\ UNCHANGED llen ELSE llen' = llen + 1 /\ UNCHANGED ulen
             /\ ppc' = [ppc EXCEPT ![p] = "CAS"]
-            /\ UNCHANGED <<uq, lq, wakeup, edge, pk, ptgt>> /\ PUnch
+            /\ UNCHANGED <<uq, lq, wakeup, edge, sat, pk, ptgt>> /\ PUnch
 P_Cas(p) == /\ ppc[p] = "CAS"
             /\ IF wakeup = 0
                THEN wakeup' = 1 /\ ppc' = [ppc EXCEPT ![p] = "WR"] /\ UNCHANGED pk
                ELSE UNCHANGED wakeup /\ ppc' = [ppc EXCEPT ![p] = "ST"] /\ pk' = [pk EXCEPT ![p] = @ + 1]
-            /\ UNCHANGED <<uq, lq, ulen, llen, edge, ptgt>> /\ PUnch
-P_Wr(p) == /\ ppc[p] = "WR" /\ edge' = TRUE
-           /\ ppc' = [ppc EXCEPT ![p] = "ST"] /\ pk' = [pk EXCEPT ![p] = @ + 1]
+            /\ UNCHANGED <<uq, lq, ulen, llen, edge, sat, ptgt>> /\ PUnch
+\* the write to the eventfd; on EAGAIN (saturated counter) read it away and come back to the same gate
+P_Wr(p) == /\ ppc[p] = "WR"
+           /\ IF sat THEN sat' = FALSE /\ UNCHANGED <<edge, ppc, pk>>
+                     ELSE /\ edge' = TRUE /\ UNCHANGED sat
+                          /\ ppc' = [ppc EXCEPT ![p] = "ST"] /\ pk' = [pk EXCEPT ![p] = @ + 1]
            /\ UNCHANGED <<uq, lq, ulen, llen, wakeup, ptgt>> /\ PUnch
 
 (* ---- Polling ---- *)
 CUnch == UNCHANGED <<ppc, pk, ptgt>>
+CUnchS == CUnch /\ UNCHANGED sat
 \* the dequeue attempts that follow a wake-up or the run of an urgent task:
 \* urgent queue first (all of it), then the low-priority queue (at most MaxLow per round)
 NextFromUrgent ==
@@ -85,30 +96,32 @@ C_Wait == /\ cpc = "W"
           /\ IF edge THEN /\ edge' = FALSE /\ msec' = 0 /\ NextFromUrgent /\ UNCHANGED execs
                      ELSE /\ msec = 0 /\ msec' = -1
                           /\ UNCHANGED <<edge, uq, lq, cur, cnt, cpc, execs>>
-          /\ UNCHANGED <<ulen, llen, wakeup>> /\ CUnch
+          /\ UNCHANGED <<ulen, llen, wakeup>> /\ CUnchS
 \* after unlinking an urgent task: decrement the counter, run the task, try the next one
 C_DU == /\ cpc = "DU" /\ ulen' = ulen - 1 /\ execs' = Append(execs, cur)
-        /\ NextFromUrgent
-        /\ UNCHANGED <<llen, wakeup, edge, msec>> /\ CUnch
+        /\ IF Stops(cur) THEN cpc' = "END" /\ UNCHANGED <<uq, lq, cur, cnt>> ELSE NextFromUrgent
+        /\ UNCHANGED <<llen, wakeup, edge, msec>> /\ CUnchS
 \* after unlinking a low-priority task: decrement, run it, next one while the budget lasts
 C_DL == /\ cpc = "DL" /\ llen' = llen - 1 /\ execs' = Append(execs, cur)
-        /\ IF cnt + 1 < MaxLow /\ lq # <<>>
+        /\ IF Stops(cur) THEN cpc' = "END" /\ UNCHANGED <<lq, cur, cnt>>
+           ELSE IF cnt + 1 < MaxLow /\ lq # <<>>
            THEN /\ cur' = Head(lq) /\ lq' = Tail(lq) /\ cnt' = cnt + 1 /\ UNCHANGED cpc
            ELSE /\ cpc' = "S0" /\ UNCHANGED <<lq, cur, cnt>>
-        /\ UNCHANGED <<uq, ulen, wakeup, edge, msec>> /\ CUnch
+        /\ UNCHANGED <<uq, ulen, wakeup, edge, msec>> /\ CUnchS
 C_S0 == /\ cpc = "S0" /\ wakeup' = 0 /\ cpc' = "RC"
-        /\ UNCHANGED <<uq, lq, ulen, llen, edge, msec, cnt, cur, execs>> /\ CUnch
+        /\ UNCHANGED <<uq, lq, ulen, llen, edge, msec, cnt, cur, execs>> /\ CUnchS
 C_RC == /\ cpc = "RC" /\ cpc' = "KL"
-        /\ UNCHANGED <<uq, lq, ulen, llen, wakeup, edge, msec, cnt, cur, execs>> /\ CUnch
+        /\ UNCHANGED <<uq, lq, ulen, llen, wakeup, edge, msec, cnt, cur, execs>> /\ CUnchS
 \* !asyncTaskQueue.IsEmpty(): if so the CAS follows immediately
 CasSelf == IF wakeup = 0 THEN wakeup' = 1 /\ cpc' = "WR" ELSE UNCHANGED wakeup /\ cpc' = "W"
 C_KL == /\ cpc = "KL"
         /\ IF llen # 0 THEN CasSelf ELSE cpc' = "KU" /\ UNCHANGED wakeup
-        /\ UNCHANGED <<uq, lq, ulen, llen, edge, msec, cnt, cur, execs>> /\ CUnch
+        /\ UNCHANGED <<uq, lq, ulen, llen, edge, msec, cnt, cur, execs>> /\ CUnchS
 C_KU == /\ cpc = "KU"
         /\ IF ulen # 0 THEN CasSelf ELSE cpc' = "W" /\ UNCHANGED wakeup
-        /\ UNCHANGED <<uq, lq, ulen, llen, edge, msec, cnt, cur, execs>> /\ CUnch
-C_WR == /\ cpc = "WR" /\ edge' = TRUE /\ cpc' = "W"
+        /\ UNCHANGED <<uq, lq, ulen, llen, edge, msec, cnt, cur, execs>> /\ CUnchS
+C_WR == /\ cpc = "WR"
+        /\ IF sat THEN sat' = FALSE /\ UNCHANGED <<edge, cpc>> ELSE edge' = TRUE /\ cpc' = "W" /\ UNCHANGED sat
         /\ UNCHANGED <<uq, lq, ulen, llen, wakeup, msec, cnt, cur, execs>> /\ CUnch
 
 PStep(p) == P_Start(p) \/ P_Len(p) \/ P_Inc(p) \/ P_Cas(p) \/ P_Wr(p)
@@ -137,8 +150,10 @@ CountersLag == /\ ulen = Len(uq) - Cardinality({p \in Prods : ppc[p] = "INC" /\ 
 \* the two conjuncts of the inductive invariant of Wakeup.tla (the counter-only abstraction of this protocol that
 \* Apalache proves for an unbounded number of queued tasks), restated on this module's state: they tie that proof's
 \* shape to the model that is replayed on the real poller
-FlagMeansWake == wakeup = 1 => (edge \/ cpc \in {"DU", "DL", "S0", "WR"} \/ \E p \in Prods : ppc[p] = "WR")
+FlagMeansWake == wakeup = 1 => (edge \/ cpc \in {"DU", "DL", "S0", "WR", "END"} \/ \E p \in Prods : ppc[p] = "WR")
 ClearMeansSeen == (wakeup = 0 /\ ulen + llen > 0) => (cpc \in {"RC", "KL", "KU"} \/ \E p \in Prods : ppc[p] = "CAS")
+\* a task that answered ErrEngineShutdown is the last one the loop ran, and the loop has returned
+ShutdownIsFinal == \A i \in 1..Len(execs) : Stops(execs[i]) => (i = Len(execs) /\ cpc = "END")
 AllIssued == \A p \in Prods : ~HasMore(p)
 AllRun == AllIssued /\ Len(execs) = Cardinality(UNION {{<<p, i>> : i \in 1..Len(Script[p])} : p \in Prods})
 \* every accepted request is eventually run (exactly once by ExecAtMostOnce)
